@@ -44,7 +44,9 @@ TksUnset(kind) == [set |-> FALSE, key |-> <<>>, tw |-> ZeroSeq(BS(kind)), adds |
 MksUnset == [set |-> FALSE, key |-> <<>>, mode |-> "enc", tw |-> ZeroSeq(8), r |-> 0]
 
 (* key state embedded in CTR / parallel objects *)
-KeyNone == [kd |-> "none"]
+(* never keyed: the zero-allocated context.  For Mantis the tweak slot can still be set   *)
+(* (and matters: the 0-round cipher depends on it); keying resets it to zero.          *)
+KeyNone == [kd |-> "none", tw |-> ZeroSeq(8)]
 
 CtrZeroed(kind) == [life |-> "zeroed", be |-> "gen", key |-> KeyNone,
                     pos |-> PosInit(BS(kind))]
@@ -81,7 +83,7 @@ MkImage(st) ==
 NAdds(key, rr) == IF rr < 0 THEN key.adds ELSE SubSeq(key.adds, 1, rr)
 
 KeyEnc(kind, key, rr, blk) ==
-    CASE key.kd = "none"   -> IF kind = "mantis" THEN MCore(MkImage(MksUnset), ZeroSeq(8), 0, blk) ELSE blk
+    CASE key.kd = "none"   -> IF kind = "mantis" THEN MCore(MkImage(MksUnset), key.tw, 0, blk) ELSE blk
       [] key.kd = "mantis" -> MCore(MKs(key.key, key.mode), key.tw, IF rr < 0 THEN key.r ELSE rr, blk)
       [] OTHER             -> BytesOf(CW(kind), EncCells(CW(kind), CellsOf(CW(kind), blk), NAdds(key, rr)))
 
@@ -391,6 +393,7 @@ TCtrSetTweak ==
               THEN LET old == ctr[kind][o].key
                        new == CASE old.kd = "tweaked" -> TweakedKey(kind, old.pkey, tw)
                                 [] old.kd = "mantis"  -> [old EXCEPT !.tw = tw]
+                                [] old.kd = "none" /\ kind = "mantis" -> [old EXCEPT !.tw = tw]
                                 [] OTHER              -> old
                    IN ctr' = [ctr EXCEPT ![kind][o].key = new,
                                          ![kind][o].pos = PosRekey(256, @)]
